@@ -36,9 +36,127 @@ def listener_case(case):
     return dict(reproduced=bool(violated), violated=violated)
 
 
+def _child(prog, timeout=60):
+    import subprocess
+    p = subprocess.run([sys.executable, "-c", prog], capture_output=True, text=True, timeout=timeout)
+    return p.returncode, p.stdout, p.stderr
+
+
+def setattr_delegate_case(case):
+    """C11 / C18 on assignment through a delegation chain.  Independent oracle over concrete scenarios; the model only
+    selects the flavour (DelegatesTo = modify, PrototypedFrom otherwise; assignment or deletion)."""
+    import sys as _sys
+    from traits.api import HasTraits, Instance, Int, Any, DelegatesTo, PrototypedFrom, TraitError, push_exception_handler
+    push_exception_handler(lambda *a: None, reraise_exceptions=False)
+    violated = []
+
+    class Leaf(HasTraits):
+        x = Int(1)
+
+    class Mid(HasTraits):
+        d = Instance(HasTraits)
+        x = DelegatesTo("d")
+
+    class Top(HasTraits):
+        d = Instance(HasTraits)
+        x = DelegatesTo("d")
+
+    # -- DelegatesTo through a chain of two hops: validated by and stored into the final delegate only
+    leaf = Leaf()
+    top = Top(d=Mid(d=leaf))
+    try:
+        top.x = "not an int"
+        violated.append("DelegatesTo chain accepted a value the delegate's trait rejects")
+    except TraitError:
+        pass
+    if (leaf.x, top.x) != (1, 1) or "x" in top.__dict__ or "x" in top.d.__dict__:
+        violated.append("rejected assignment through DelegatesTo changed something: leaf.x=%r top.x=%r" % (leaf.x, top.x))
+    top.x = 5
+    if leaf.x != 5 or "x" in top.__dict__ or "x" in top.d.__dict__:
+        violated.append("DelegatesTo chain did not store into the final delegate only (leaf.x=%r, top.__dict__=%r)" % (leaf.x, top.__dict__))
+
+    # -- PrototypedFrom: a rejected value leaves the link in place; an accepted one breaks it; deletion restores it
+    class Proto(HasTraits):
+        x = Int(1)
+
+    class Child(HasTraits):
+        p = Instance(Proto)
+        x = PrototypedFrom("p")
+    c = Child(p=Proto())
+    events = []
+    c.on_trait_change(lambda o, n, old, new: events.append((old, new)), "x")
+    try:
+        c.x = "not an int"
+        violated.append("PrototypedFrom accepted a value the prototype's trait rejects")
+    except TraitError:
+        pass
+    c.p.x = 2
+    if events != [(1, 2)] or c.x != 2:
+        violated.append("after a REJECTED local assignment the PrototypedFrom link is broken: prototype change 1->2 notified %r, "
+                        "child reads %r" % (events, c.x))
+    del events[:]
+    c.x = 7
+    c.p.x = 3
+    if c.x != 7 or (2, 3) in events or (7, 3) in events:
+        violated.append("after a local assignment the attribute still follows / is notified of the prototype: reads %r, events %r" % (c.x, events))
+    del events[:]
+    del c.x
+    c.p.x = 4
+    if c.x != 4 or (3, 4) not in events:
+        violated.append("deleting the local value did not restore the link: reads %r, events %r" % (c.x, events))
+
+    # -- C18: a delegation cycle is reported as an error and costs no reference
+    P = str(bytes([120, 121, 122]), "ascii")          # a fresh, refcounted "xyz"
+
+    class Cyc(HasTraits):
+        other = Any
+        xyz = DelegatesTo("other", prefix=P)
+    a, b = Cyc(), Cyc()
+    a.other, b.other = b, a
+    r0 = _sys.getrefcount(P)
+    n = 50
+    for _ in range(n):
+        try:
+            a.xyz = 1
+            violated.append("assignment into a delegation cycle succeeded")
+            break
+        except Exception:
+            pass
+    leaked = _sys.getrefcount(P) - r0
+    if leaked:
+        violated.append("%d failed assignments into a delegation cycle leaked %d references to the delegate attribute name" % (n, leaked))
+    return dict(reproduced=bool(violated), violated=violated)
+
+
+def getattr_delegate_case(case):
+    """C18: reading through a delegation cycle ends in a Python exception, not in a crash (child process)."""
+    prog = r"""
+from traits.api import HasTraits, DelegatesTo, Any, push_exception_handler
+push_exception_handler(lambda *a: None)
+class A(HasTraits):
+    other = Any
+    x = DelegatesTo('other')
+a, b = A(), A()
+a.other = b; b.other = a
+try:
+    a.x
+    print("RESULT returned")
+except BaseException as e:
+    print("RESULT raised", type(e).__name__)
+"""
+    rc, out, err = _child(prog)
+    violated = []
+    if rc < 0:
+        violated.append("reading a DelegatesTo attribute whose delegates form a cycle killed the interpreter with signal %d" % -rc)
+    elif "RESULT raised" not in out:
+        violated.append("reading through a delegation cycle did not raise: rc=%r out=%r" % (rc, out[-200:]))
+    return dict(reproduced=bool(violated), violated=violated, observed=dict(returncode=rc, stdout=out[-200:]))
+
+
 def main():
     case = json.loads(sys.stdin.read())
-    out = {"listener": listener_case}[case["family"]](case)
+    out = {"listener": listener_case, "setattr_delegate": setattr_delegate_case,
+           "getattr_delegate": getattr_delegate_case}[case["family"]](case)
     print(json.dumps(out, default=repr))
 
 
